@@ -264,6 +264,25 @@ def build_harness(P, result):
     return out
 
 
+def check_facts(P, result):
+    """FACTS = [{"file": rel, "suffixes": "a.b,c.*", "expect": {"T.f": [calls…]}}]: ordered call lists the model
+    assumes, re-extracted from /repo's current source by tools/factextract on every run."""
+    facts = getattr(P, "FACTS", None)
+    if not facts:
+        return
+    tool = ensure_tool("factextract")
+    for f in facts:
+        rc, so, se, _ = run([tool, os.path.join(REPO, f["file"]), f["suffixes"]])
+        if rc != 0:
+            result["broken"].append({"kind": "correspondence", "what": f"factextract failed on {f['file']}", "detail": se[-800:]})
+            continue
+        got = json.loads(so)
+        for fn, exp in f["expect"].items():
+            if got.get(fn) != exp:
+                result["broken"].append({"kind": "correspondence", "what": f"call order in {f['file']}:{fn} differs from what the model assumes",
+                                         "detail": f"expected {exp} got {got.get(fn)}"})
+
+
 def build_driver(result):
     with Lock("lake"):
         # Main.lean is generated from the Driver/ directory listing
@@ -430,7 +449,8 @@ def main():
     regenerate(P, result)
     obligations, discharged = prove(P, result, tier)
 
-    # 3 build
+    # 3 facts + build
+    check_facts(P, result)
     with Lock("gobuild_" + pid):
         harness = build_harness(P, result)
     driver = build_driver(result)
